@@ -12,7 +12,7 @@ from props.c16_ops import _excname, digest
 from ref import linops as R
 
 TOL = 1e-10
-SOLVER_FORMS = ["v", "c", "IC", "IF"]
+SOLVER_FORMS = ["v", "c", "IC", "IF", "vd"]
 
 
 def _to_fmt(M, fmt):
@@ -42,6 +42,9 @@ def inverse_problems(prefix, S, B, forms):
                 todo = [("dot(e_%d)" % j, I[:, j].copy()) for j in range(n)]
             elif form == "c":
                 todo = [("dot(e_%d as (n,1))" % j, I[:, j:j + 1].copy()) for j in range(n)]
+            elif form == "vd":      # integer / single-precision right-hand sides (unit vectors are exact in every dtype)
+                todo = [("dot(e_%d dtype=%s)" % (j, np.dtype(dt).name), I[:, j].astype(dt)) for j in range(n) for dt in (np.int64, np.float32)]
+                todo += [("dot(eye(n) dtype=%s)" % np.dtype(dt).name, I.astype(dt)) for dt in (np.int64, np.float32)]
             elif form == "IC":
                 todo = [("dot(eye(n))", I.copy())]
             elif form == "IF":
